@@ -72,8 +72,8 @@ impl Property for C11 {
     }
     fn cases(&self, tier: Tier) -> u64 {
         match tier {
-            Tier::Quick => 150000,
-            Tier::Thorough => 3000000,
+            Tier::Quick => 400_000,
+            Tier::Thorough => 6_000_000,
         }
     }
     fn decode(&mut self, tape: &TapeVal) -> Case {
